@@ -217,6 +217,11 @@ impl<Child: Executor> HashAggregate<Child> {
             } else {
                 DataType::Null
             };
+            // COUNT(*) counts rows; COUNT(expr), like every other aggregate, ignores NULLs
+            let counts_rows = matches!(agg_expr.arg, None | Some(BoundExpression::Star));
+            if !counts_rows && value.is_null() {
+                continue;
+            }
             bucket.accumulators[i].accumulate(&value)?;
         }
 
